@@ -212,6 +212,9 @@ pub fn explore(opts: &Opts) -> Explored {
                 if !(c == a) {
                     msgs.push("a clone compares unequal".to_string());
                 }
+                if !(a.reshape(d.clone()) == a) {
+                    msgs.push("a reshape to the same dimensions compares unequal".to_string());
+                }
                 // one value differs
                 for f in [0, n - 1, n / 2] {
                     let mut v2 = fl(&v);
@@ -227,6 +230,15 @@ pub fn explore(opts: &Opts) -> Explored {
                         let b = Array::from((d2.clone(), fl(&v)));
                         if a == b {
                             msgs.push(format!("dimensions {:?} and {:?} with the same values compare equal", d, d2));
+                        }
+                        // the same through views that share the storage
+                        let view = a.reshape(d2.clone());
+                        if a == view || view == a {
+                            msgs.push(format!("a {:?} array compares equal to its {:?} reshape", d, d2));
+                        }
+                        let tview = t.reshape(d2.clone());
+                        if tview == t || tview == a {
+                            msgs.push(format!("a tracked {:?} array compares equal to its {:?} reshape", d, d2));
                         }
                     }
                 }
